@@ -212,9 +212,26 @@ func propFuncs(e *Engine, prop string) ([]*FuncContract, map[*FuncContract]bool)
 	sel := map[*FuncContract]bool{}
 	dep := map[*FuncContract]bool{}
 	var queue []*FuncContract
+	// every function under contract that is DEFINED in a file the property is anchored in belongs to the property's check,
+	// whatever its `props` line says (the anchors are "the code the property depends on")
+	anchored := map[string]bool{}
+	for _, f := range anchorFiles(prop) {
+		anchored[filepath.Join(e.repo, f)] = true
+	}
 	for _, fc := range e.contracts.Funcs {
 		if hasProp(fc.Props, prop) {
 			queue = append(queue, fc)
+			continue
+		}
+		if fn := e.contractFn[fc]; fn != nil && !fc.Extern && len(anchored) > 0 {
+			pos := fn.Pos()
+			if !pos.IsValid() && fn.Parent() != nil {
+				pos = fn.Parent().Pos()
+			}
+			if pos.IsValid() && anchored[e.fset.Position(pos).Filename] {
+				dep[fc] = true
+				queue = append(queue, fc)
+			}
 		}
 	}
 	for len(queue) > 0 {
